@@ -1022,10 +1022,6 @@ impl<'p> World<'p> {
     #[allow(clippy::too_many_arguments)]
     fn cross_check_blob(&mut self, bk: Bk, wk: WrapKind, krec: &KeyRec, key_raw: &[u8], text: &str, wrap_secret: &[u8], unwrap_secret: &[u8], draws: &[Draw]) {
         let f = bk.family();
-        if f == 1 && wk == WrapKind::Pke {
-            self.stats.bump("crosscheck:k1-seal-has-no-reference");
-            return;
-        }
         let op = format!("wrap-{}-{}", wk.name(), krec.kind.name());
         let iv = self.plan.iv.clone();
         if let Some(cost) = if wk == WrapKind::Pw { pw_cost(text) } else { None } {
@@ -1082,7 +1078,11 @@ impl<'p> World<'p> {
             }
             WrapKind::Pke => {
                 // the ephemeral secret is the last draw of the right size made inside the call
-                let want = if f == 3 { 48 } else { 32 };
+                let want = match f {
+                    1 => 512,
+                    3 => 48,
+                    _ => 32,
+                };
                 (draws.iter().rev().find(|d| d.bytes.len() == want).map(|d| d.bytes.clone()), PwParams::Default)
             }
         };
